@@ -78,4 +78,23 @@ MUTANTS = [
  {"id": "c19-migration-key-order", "props": ["C19"], "file": "contracts/cw20-base/src/contract.rs",
   "old": "            ALLOWANCES_SPENDER.save(deps.storage, (&spender, &owner), &allowance)?;",
   "new": "            ALLOWANCES_SPENDER.save(deps.storage, (&owner, &spender), &allowance)?;"},
+ # ---- C04
+ {"id": "c04-revert-f1-fix-pct", "props": ["C04"], "file": "packages/cw3/src/proposal.rs",
+  "old": "                self.votes.yes > 0\n                    && self.votes.yes\n                        >= votes_needed(self.total_weight - self.votes.abstain, percentage_needed)",
+  "new": "                self.votes.yes\n                        >= votes_needed(self.total_weight - self.votes.abstain, percentage_needed)"},
+ {"id": "c04-no-round-up", "props": ["C04"], "file": "packages/cw3/src/proposal.rs",
+  "old": "    ((applied.u128() + PRECISION_FACTOR - 1) / PRECISION_FACTOR) as u64",
+  "new": "    (applied.u128() / PRECISION_FACTOR) as u64"},
+ {"id": "c04-rejected-ge-instead-of-gt", "props": ["C04"], "file": "packages/cw3/src/proposal.rs",
+  "old": "                self.votes.no\n                    > votes_needed(\n                        self.total_weight - self.votes.abstain,",
+  "new": "                self.votes.no\n                    >= votes_needed(\n                        self.total_weight - self.votes.abstain,"},
+ {"id": "c04-quorum-swap-expired-branches", "props": ["C04"], "file": "packages/cw3/src/proposal.rs",
+  "old": "                if self.votes.yes == 0 {\n                    return false;\n                }\n                if self.expires.is_expired(block) {",
+  "new": "                if self.votes.yes == 0 {\n                    return false;\n                }\n                if !self.expires.is_expired(block) {"},
+ {"id": "c04-passed-gt-instead-of-ge", "props": ["C04"], "file": "packages/cw3/src/proposal.rs",
+  "old": "            } => self.votes.yes >= weight_needed,",
+  "new": "            } => self.votes.yes > weight_needed,"},
+ {"id": "c04-quorum-ignores-veto-in-opinions", "props": ["C04"], "file": "packages/cw3/src/proposal.rs",
+  "old": "                    let opinions = self.votes.total() - self.votes.abstain;\n                    self.votes.yes >= votes_needed(opinions, threshold)",
+  "new": "                    let opinions = self.votes.total() - self.votes.abstain - self.votes.veto;\n                    self.votes.yes >= votes_needed(opinions, threshold)"},
 ]
